@@ -474,4 +474,37 @@ func ZZ_C17_Time(sv *zzsv.T) {
 		want = zStr(ts.Weekday().String())
 	}
 	sv.Assert("C17.time", err == nil && zzSame(sv, out, want))
+	// the zone is the one configured *now*: a second call after TZ changed
+	tz2 := zones[sv.Choice("tz2", len(zones))]
+	sv.Setenv("TZ", tz2)
+	out2, err2 := e.Execute(nil)
+	sv.Observe("err2", err2 != nil)
+	name2 := tz2
+	if name2 == "" {
+		name2 = "UTC"
+	}
+	ts2 := time.Unix(v, 0)
+	if loc, lerr := time.LoadLocation(name2); lerr == nil {
+		ts2 = ts2.In(loc)
+	}
+	hr2, mi2, se2 := ts2.Clock()
+	yr2, mo2, dy2 := ts2.Date()
+	var want2 zv
+	switch fn {
+	case "hour":
+		want2 = zInt(int64(hr2))
+	case "minute":
+		want2 = zInt(int64(mi2))
+	case "seconds":
+		want2 = zInt(int64(se2))
+	case "day":
+		want2 = zInt(int64(dy2))
+	case "month":
+		want2 = zInt(int64(mo2))
+	case "year":
+		want2 = zInt(int64(yr2))
+	case "weekday":
+		want2 = zStr(ts2.Weekday().String())
+	}
+	sv.Assert("C17.time.zone_follows_configuration", err2 == nil && zzSame(sv, out2, want2))
 }
